@@ -94,7 +94,10 @@ def merge(scns, tracefile):
     for s in scns:
         r = by[s["scn"]]
         recs.append({"scn": r["scn"], "api": r["api"], "level": r["level"], "wrap": r["wrap"], "hist_bits": r["hist_bits"], "lbuf": r["lbuf"],
-                     "dict": r["dict"] if r["dictmode"] else [], "inp": r["inp"], "calls": r["calls"], "end": r["end"],
+                     "dict": (r["dict"][-32768:] if r["dictmode"] in (1, 2, 6, 7) else []), "inp": r["inp"], "calls": r["calls"], "end": r["end"],
+                     "dict_points": [[e["to"], e["ti"]] for e in r["setdict"] if not e.get("wrong_state") and "to" in e and e["ret"] == 0 and e.get("ret2", 0) == 0],
+                     "dict_at_start": 1 if r["dictmode"] in (1, 2) else 0,
+                     "wrong_state_accepted": [e["seq"] + 1 for e in r["setdict"] if e.get("wrong_state") and (e["ret"] == 0 or e.get("ret2", 1) == 0)],
                      "expect_ret": r["meta"].get("expect_ret", 0), "complete_supply": r["meta"].get("complete_supply", True)})
     return recs, summary, by
 
